@@ -13,6 +13,7 @@ import (
 	"sort"
 	"strings"
 	"sync"
+	"time"
 
 	"github.com/valyala/fasthttp"
 	"github.com/versity/versitygw/s3event"
@@ -55,6 +56,21 @@ func newEvSink() *evSink {
 func (s *evSink) URL() string { return "http://" + s.ln.Addr().String() + "/hook" }
 func (s *evSink) Close()      { s.srv.Close() }
 func (s *evSink) take() []s3event.EventRecord {
+	if sched.Detached.Load() > 0 {
+		// the sender works through a long-lived worker of its own: wait until nothing has arrived for a while
+		last, stable := -1, 0
+		for i := 0; i < 100 && stable < 6; i++ {
+			time.Sleep(50 * time.Millisecond)
+			s.mu.Lock()
+			n := len(s.recs)
+			s.mu.Unlock()
+			if n == last {
+				stable++
+			} else {
+				last, stable = n, 0
+			}
+		}
+	}
 	s.mu.Lock()
 	defer s.mu.Unlock()
 	out := s.recs
@@ -155,6 +171,27 @@ func c19Cases() []c19Case {
 		}, Want: func(w *World) []c19Want {
 			return []c19Want{{s3event.EventObjectRemovedDeleteObjects, w.Key, -1, ""}}
 		}},
+		{Name: "DeleteObjects 600 keys", Req: func(w *World) *gw.Req {
+			var b strings.Builder
+			b.WriteString("<Delete>")
+			for i := 0; i < 600; i++ {
+				fmt.Fprintf(&b, "<Object><Key>bulk/k%03d</Key></Object>", i)
+			}
+			b.WriteString("</Delete>")
+			return NewReq("POST", "/"+w.Bucket, "delete", nil, []byte(b.String()))
+		}, Want: func(w *World) []c19Want {
+			var out []c19Want
+			for i := 0; i < 600; i++ {
+				out = append(out, c19Want{s3event.EventObjectRemovedDeleteObjects, fmt.Sprintf("bulk/k%03d", i), -1, ""})
+			}
+			return out
+		}},
+		{Name: "PutObject directory object", Req: func(w *World) *gw.Req { return NewReq("PUT", gw.ObjPath(w.Bucket, "ev/dirobj/"), "", nil, nil) },
+			Want: func(w *World) []c19Want { return []c19Want{{s3event.EventObjectCreatedPut, "ev/dirobj/", 0, ""}} }},
+		{Name: "DeleteObject directory object", Req: func(w *World) *gw.Req {
+			Must(w.F.Put(gw.Root, w.Bucket, "ev/dirobj2/", nil), "directory object")
+			return NewReq("DELETE", gw.ObjPath(w.Bucket, "ev/dirobj2/"), "", nil, nil)
+		}, Want: func(w *World) []c19Want { return []c19Want{{s3event.EventObjectRemovedDelete, "ev/dirobj2/", -1, ""}} }},
 		{Name: "CopyObject from an explicit source version", Req: func(w *World) *gw.Req {
 			src := w.Bucket + "/" + w.Key
 			if w.F.G.Opts.Versioning {
